@@ -211,7 +211,7 @@ def gen_case(rnd, tier, index):
 
     def st(pool):
         a = rnd.choice(pool)
-        v = c01.draw_write(rnd, cur.get(a, dag.cell[a].get('v')))
+        v = c01.draw_write(rnd, cur.get(a, dag.cell[a].get('v')), dag.cell[a].get('w'))
         cur[a] = v
         return {'op': 'set', 'a': a, 'v': v}
 
